@@ -16,6 +16,8 @@ pub struct G {
     pub force_decl: Option<Decl>,
     /// values that must not become graph outputs (results of random operators)
     pub hidden: Vec<String>,
+    /// hidden values observed for run-to-run variation
+    pub observe: Vec<String>,
 }
 
 pub fn bshape(a: &[usize], b: &[usize]) -> Option<Vec<usize>> {
@@ -34,7 +36,7 @@ const LIMIT: f64 = 1048576.0;
 
 impl G {
     pub fn new(seed: u64) -> G {
-        G { rng: SplitMix64(seed), spec: Spec::default(), vals: vec![], n: 0, exact: true, tags: vec![], force_decl: None, hidden: vec![] }
+        G { rng: SplitMix64(seed), spec: Spec::default(), vals: vec![], n: 0, exact: true, tags: vec![], force_decl: None, hidden: vec![], observe: vec![] }
     }
     fn fresh(&mut self, p: &str) -> String { self.n += 1; format!("{}{}", p, self.n) }
     fn track(&mut self, bound: f64, fb: i32) { if !(bound * 2f64.powi(fb) < 4194304.0) { self.exact = false; } }
@@ -661,22 +663,26 @@ impl G {
         let op2 = *self.rng.pick(&["Add", "Sub", "Mul"]);
         self.binary(op2, None, x, c).unwrap_or(x)
     }
-    /// a random operator whose result is multiplied by zero: the graph stays deterministic unless
-    /// the optimizer treats the random operator as a constant and something else changes
+    /// y = x + (r + x) * 0 with r a random operator: the graph outputs stay deterministic; the hidden
+    /// value h = r + x is observed for run-to-run variation (it stops varying if the optimizer
+    /// folds the random operator into a constant)
     pub fn t_random(&mut self, x: usize) -> usize {
         let vx = self.v(x);
         let s: Vec<i64> = vx.shape.iter().map(|d| *d as i64).collect();
         let op = *self.rng.pick(&["RandomUniform", "RandomNormal"]);
         let mut attrs = vec![("shape", Attr::Ints(s))];
-        if self.rng.chance(30) { attrs.push(("seed", Attr::Float(1.0))); }
+        if self.rng.chance(25) { attrs.push(("seed", Attr::Float(1.0))); }
         let r = self.node_multi(op, None, &[], attrs, vec![(Dt::F, vx.shape.clone(), 100.0, 0)])[0];
         self.inexact();
-        let rn = self.vals[r].name.clone();
+        let h = self.node("Add", None, &[r, x], vec![], Dt::F, vx.shape.clone(), 100.0, 0);
+        let (rn, hn) = (self.vals[r].name.clone(), self.vals[h].name.clone());
         self.hidden.push(rn);
-        let sh = self.node("Shape", None, &[r], vec![], Dt::I, vec![vx.shape.len()], 6.0, 0);
+        self.hidden.push(hn.clone());
+        self.observe.push(hn);
         let zero = self.scalar(0.0);
-        let e = self.node("Expand", None, &[zero, sh], vec![], Dt::F, vx.shape.clone(), 0.0, 0);
-        if vx.dt == Dt::F { self.binary("Add", None, x, e).unwrap_or(x) } else { e }
+        let z = self.node("Mul", None, &[h, zero], vec![], Dt::F, vx.shape.clone(), 100.0, 0);
+        self.hidden.push(self.vals[z].name.clone());
+        self.node("Add", None, &[x, z], vec![], Dt::F, vx.shape.clone(), vx.bound, vx.fb)
     }
 
     // ---------------------------------------------------------------- glue
@@ -755,7 +761,7 @@ impl G {
         self.spec.data.retain(|(n, _)| names.contains(n));
         self.spec.consts.retain(|c| consumed.contains(&c.name));
         self.spec.outputs = outs;
-        self.spec.hidden = self.hidden.clone();
+        self.spec.hidden = self.observe.clone();
         self.spec.exact = self.exact;
         let tag = if self.tags.is_empty() { "glue".to_string() } else { self.tags.join("+") };
         (self.spec, tag)
